@@ -45,7 +45,10 @@ pub fn enumerate(prop: &str, tier: &str, f: &mut dyn FnMut(Case)) {
         }
         "C02" => gen::cut(lv, f),
         "C03" => gen::not(lv, f),
-        "C04" => gen::output(lv, f),
+        "C04" => {
+            gen::output(lv, f);
+            gen::timeg(lv, f);
+        }
         "C05" | "C10" | "C11" => {
             let l = if tier == "thorough" { 1 } else { 0 };
             gen::lists(l, f);
@@ -53,6 +56,9 @@ pub fn enumerate(prop: &str, tier: &str, f: &mut dyn FnMut(Case)) {
             gen::not(l, f);
             // C05: an alternative that prints and then fails needs three leaves
             gen::output(if prop == "C05" { 1 } else { l }, f);
+            if prop == "C05" {
+                gen::timeg(1, f);
+            }
             gen::builtins(l, f);
             gen::nfacts(if prop == "C10" { l + 1 } else { l }, f);
             gen::core(l, f);
@@ -78,6 +84,10 @@ fn goal_kinds(p: &Program) -> String {
             G::Not(g) => {
                 walk(g, s);
                 "not"
+            }
+            G::Time(g) => {
+                walk(g, s);
+                "time"
             }
             G::Cut => "!",
             G::Fail => "fail",
@@ -105,7 +115,7 @@ pub fn prop_of_family(family: &str) -> &'static str {
     match family.split('@').next().unwrap_or("") {
         "cut" => "C02",
         "not" => "C03",
-        "output" => "C04",
+        "output" | "timeg" => "C04",
         "arith" => "C12",
         "cmp" => "C14",
         "append" => "C16",
